@@ -160,6 +160,7 @@ fn free_cfg() -> Cfg {
         f_preempt: false,
         f_sink_err: false,
         f_dtor: false,
+        f_reent: false,
         personality: 0,
         spawn_shape: 0,
         builder_pct: 0,
